@@ -17,7 +17,8 @@ QUICK_RUNS = 9000
 THOROUGH_RUNS = 250000
 QUICK_BUDGET = 100
 THOROUGH_BUDGET = 1500
-RULE = ('one run = one simulated hand on one of the 11 hand-history variants (single run-out, int or Decimal chips, known '
+RULE = ('one run = one simulated hand on one of the 11 hand-history variants (single run-out, int or Decimal chips - the '
+        'Decimal values in plain or in normalised spelling such as 1E+2 -, known '
         'cards or unknown burn/down cards revealed at showdown, commentary on some operations, optional and '
         'user-defined fields with str/int/bool/list/dict values drawn from printable ASCII incl. quotes, #, backslash), '
         'written with compression on or off through an in-memory binary file object (dump/load). Oracle: load(dump(h)) == '
@@ -39,7 +40,7 @@ ASSUMPTIONS = [
 ]
 PHH = ('FT', 'NT', 'NS', 'PO', 'FO8', 'F7S', 'F7S8', 'FR', 'N2L1D', 'F2L3D', 'FB')
 BIAS = dict(variants=PHH, custom_num=0, chips=('int', 'decimal'), rakes=('none',), sbcs=(1,), divmods=('default',),
-            max_players=7)
+            max_players=7, allow_normalized=True)
 ALPHABET = ''.join(chr(c) for c in range(32, 127))
 SHOW_BIT = 1 << AUTOS.index(Automation.HOLE_CARDS_SHOWING_OR_MUCKING)
 MECHANICAL = ('AntePosting', 'BetCollection', 'BlindOrStraddlePosting', 'RunoutCountSelection', 'HandKilling',
@@ -253,6 +254,7 @@ def run(ch, ctx):
     ctx.count('action_lines', len(hh.actions))
     ctx.count('compression_on', compression)
     ctx.count('decimal_chips', cfg['chip'] == 'decimal')
+    ctx.count('decimal_normalized_spelling', bool(cfg.get('normalized')))
     ctx.count('unknown_cards', dealer == 'hidden')
     ctx.count('with_fields', bool(fields))
     std_finish(world, ctx, len(hh.actions) >= 8)
